@@ -165,50 +165,58 @@ def rand128(r):
 
 
 def directed(kind, r, code: bytes, limit=6000):
-    """Search (cheaply, in Python) for an exchange of the given kind.  Returns (salt, a, b, hit)."""
+    """Search (cheaply, in Python) for an exchange of the given kind.  A kind may combine classes with '+': one class on
+    the salt (salt-zero, salt-leading-zero, x0), one on b (B0) and one on a (A0, S0, K0, M1-0, M2-0, u0, a-small, a-max).
+    Returns (salt, a, b, hit); hit is False if some requested class was not reached within the limit."""
+    parts = set(kind.split("+"))
     salt = bytes(r.getrandbits(8) for _ in range(16))
-    if kind == "salt-zero":
+    hit = True
+    if "salt-zero" in parts:
         salt = bytes(16)
-    elif kind == "salt-leading-zero":
+    elif "salt-leading-zero" in parts:
         k = r.choice([1, 2, 7, 15])
         salt = bytes(k) + bytes([r.randrange(1, 256)]) + salt[k + 1:]
-    f = Fast(code, salt)
-    a, b = rand128(r), rand128(r)
-    hit = True
-    if kind == "A0":
-        hit = False
-        for _ in range(limit):
-            a = rand128(r)
-            if pow(R.G, a, R.N) >> (8 * 383) == 0:
-                hit = True
-                break
-    elif kind == "B0":
-        hit = False
-        for _ in range(limit):
-            b = rand128(r)
-            if f.B_b(b)[0] == 0:
-                hit = True
-                break
-    elif kind in ("S0", "K0", "M1-0", "M2-0", "u0"):
-        key = {"S0": "S_b", "K0": "K", "M1-0": "M1", "M2-0": "M2"}.get(kind)
-        B_b = f.B_b(b)
-        hit = False
-        for _ in range(limit):
-            a = rand128(r)
-            c = f.client(a, B_b)
-            if (kind == "u0" and c["u"] >> 504 == 0) or (key and c[key][0] == 0):
-                hit = True
-                break
-    elif kind == "x0":
+    elif "x0" in parts:
         hit = False
         for _ in range(limit * 4):
             salt = bytes(r.getrandbits(8) for _ in range(16))
             if Fast(code, salt).x >> 504 == 0:
                 hit = True
                 break
-    elif kind == "a-small":
+    f = Fast(code, salt)
+    a, b = rand128(r), rand128(r)
+    if "B0" in parts:
+        found = False
+        for _ in range(limit):
+            b = rand128(r)
+            if f.B_b(b)[0] == 0:
+                found = True
+                break
+        hit = hit and found
+    on_a = parts & {"S0", "K0", "M1-0", "M2-0", "u0"}
+    if "A0" in parts:
+        found = False
+        for _ in range(limit):
+            a = rand128(r)
+            if pow(R.G, a, R.N) >> (8 * 383) == 0:
+                found = True
+                break
+        hit = hit and found
+    elif on_a:
+        which = sorted(on_a)[0]
+        key = {"S0": "S_b", "K0": "K", "M1-0": "M1", "M2-0": "M2"}.get(which)
+        B_b = f.B_b(b)
+        found = False
+        for _ in range(limit):
+            a = rand128(r)
+            c = f.client(a, B_b)
+            if (which == "u0" and c["u"] >> 504 == 0) or (key and c[key][0] == 0):
+                found = True
+                break
+        hit = hit and found
+    elif "a-small" in parts:
         a = r.choice([0, 1, 2, 255, 256])
-    elif kind == "a-max":
+    elif "a-max" in parts:
         a = (1 << 128) - 1
     return salt, a, b, hit
 
@@ -422,8 +430,11 @@ def judge(ctx, P, mres, seq=None):
     if P["conformant"] and P["code"] == P["scode"] and impl["status"] == "ok":
         res["alt_convention_differs"] = (R.skip_zero_variant_accepts(P["scode"].encode(), P["salt"], P["b"], impl["A_b"], impl["M1"])
                                          != verdict["ok"])
+    want = P["want"] or {}
     res["flags"] = dict(A0=impl["A_b"][:1] == b"\x00", B0=P["B_b"][:1] == b"\x00", K0=impl["K"][:1] == b"\x00",
-                        M1_0=impl["M1"][:1] == b"\x00", M2_0=M2[:1] == b"\x00", salt0=P["salt"][:1] == b"\x00")
+                        M1_0=impl["M1"][:1] == b"\x00", M2_0=M2[:1] == b"\x00", salt0=P["salt"][:1] == b"\x00",
+                        S0=("S" in want and want["S"] >> (8 * 383) == 0), u0=("u" in want and want["u"] >> 504 == 0),
+                        x0=(P["code"] == P["scode"] and P["acc"].x >> 504 == 0))
     return res
 
 
@@ -435,7 +446,8 @@ def _directed_job(args):
 
 def gen_exchanges(tier, seed):
     r = rng(seed, "c02ex")
-    kinds_quick = ["A0", "B0", "S0", "K0", "M2-0", "salt-zero"]
+    # quick: every leading-zero class of the property at least once (A, B, S, K, M1, M2, u, x, zero / leading-zero salt)
+    kinds_quick = ["A0", "B0+u0", "S0", "K0", "x0+M2-0", "salt-zero+M1-0"]
     kinds_all = ["A0", "B0", "S0", "K0", "M1-0", "M2-0", "u0", "x0", "salt-zero", "salt-leading-zero", "a-small", "a-max",
                  "plain", "plain", "plain", "plain"]
     kinds = kinds_quick if tier == "quick" else [kinds_all[i % len(kinds_all)] for i in range(96)]
@@ -454,7 +466,7 @@ def gen_exchanges(tier, seed):
         found = [_directed_job(t) for t in todo]
     cases = []
     for (_, i, kind, code), (salt, a, b, hit) in zip(todo, found):
-        if kind == "A0" and i % 2 == 0 and tier == "quick":
+        if kind.startswith("A0") and i % 2 == 0 and tier == "quick":
             salt = bytes(3) + salt[3:]     # leading-zero salt together with a leading-zero A
         cases.append(dict(id=f"{i}", kind=kind, code=code, server_code=code, salt=salt.hex(), a=a, b=b, hit=hit))
     # wrong setup code
@@ -647,8 +659,9 @@ def run(ctx):
                    for sq, l in zip(seqs, seq_P) for k, P in enumerate(l)]
 
     # ---- session sequences
+    seq_viols = []           # reported after the single-exchange violations (the runner keeps the first per key)
     for res in seq_results:
-        viols += res["viol"]
+        seq_viols += res["viol"]
         c = res["case"]
         cov.case("seq" + json.dumps([res["seq"], c["id"], c["code"], c["server_code"], c["salt"], c["a"], c["b"]]) + str(id(res)), True,
                  stream="sequence", sequence=res["seq"], sequence_step_kind=c["kind"], sequence_impl=res["impl_status"],
@@ -660,7 +673,7 @@ def run(ctx):
     cov.extra["model_evaluations_shared"] = len(all_P) - len(exprs_list)
 
     # ---- exchanges (first, so that their samples are kept)
-    flags = dict(A0=0, B0=0, K0=0, M1_0=0, M2_0=0, salt0=0)
+    flags = dict(A0=0, B0=0, S0=0, K0=0, M1_0=0, M2_0=0, u0=0, x0=0, salt0=0)
     flips_checked = 0
     for res in results:
         viols += res["viol"]
@@ -756,6 +769,7 @@ def run(ctx):
                                    impl=im, model=mo))
         cov.case(f"pl{d.hex()}/{ln}", True, stream="pad_left", pad_result=im.split(" ")[0])
 
+    viols += seq_viols
     cov.extra["informational_skip_leading_zero_convention"] = dict(
         note="exchanges on which an accessory hashing A, B, S without leading zero bytes in M1/K (not the convention DESIGN.md fixes) "
              "would judge the controller's proof differently; not counted as violations",
@@ -764,6 +778,7 @@ def run(ctx):
     cov.extra["exhaustive"] = False
     cov.extra["exchanges"] = len(results)
     cov.extra["leading_zero_hits"] = flags
+    cov.extra["leading_zero_classes_not_reached"] = sorted(k for k, v in flags.items() if v == 0)
     cov.extra["directed_misses"] = [c["kind"] for c in cases if not c.get("hit", True)]
     cov.extra["proof_corruptions_checked_per_exchange"] = "all 512 single-bit flips of M2 + echoed M1, zeros, reversed, resized forms"
     cov.extra["proof_corruptions_checked_total"] = flips_checked
